@@ -37,6 +37,7 @@ CONSTANTS MODE,      \* "universe" | "file"
           MAXJOBS,   \* exhaustive corpora have 0..MAXJOBS jobs
           NRANDOM,   \* number of random larger corpora
           RANDMAX,   \* their maximal size
+          NCLI,      \* number of corpora of the command-line cases (ExportCli)
           FixedD1, FixedD2, FixedD3
 
 ---------------------------------------------------------------------------
@@ -237,4 +238,84 @@ CorpusRec(n) ==
         diffs |-> SetToSeq({DiffCase(js, I) : I \in {I \in IdxSets(js) : Cardinality(I) <= 4}})]
 Export == /\ TLCGet("level") >= 0
           /\ ndJsonSerialize(IOEnv.CASES_OUT, [n \in 1..Len(CorpusSeqs) |-> CorpusRec(n)])
+
+---------------------------------------------------------------------------
+(* COMMAND LINE FRONT:  `signac schema [-x] [-t DEPTH] [-p PRECISION] [-r MAXRANGE] [-j ID ... | -f KEY VALUE]`  and
+   `signac diff [ID ... | -f KEY VALUE]`, each a fresh process.  A case is the COMPOSITION of operators defined above:
+     selection  none -> all jobs;  -j ids -> those jobs;  -f key value -> the jobs whose value under the (top-level) key is
+                Python-equal to the value (a calibrated rule of the query engine: 1 finds 1, 1.0 and True; never lists or mappings)
+     schema     what is printed = Fmt(SchemaReq(selection, -x)):  one row per key that has values, per row one group per type:
+                typename([v1, v2, ...], n) with Python's text of every value - all of them if n <= MAXRANGE, else MAXRANGE - 2
+                of them, "...", and two more (WHICH ones depends on Python's sort order and is not part of this model); with
+                -p P numbers (bools included: True -> 1) are rounded to P digits before they are printed; with -t DEPTH > 0 the
+                keys are nested and everything deeper than DEPTH is printed as {...}
+     diff       what is printed = for every selected job its id and DiffOf(selected jobs) of that job
+   What the text loses (stated, not checked): str vs other types only through the group's type name; the order of values; which
+   values hide behind "..."; a key that is a scalar in one job and a mapping in another cannot be nested (conflict = TRUE: the
+   case is exported but not judged when DEPTH > 0). *)
+RECURSIVE Digits(_)
+Digits(k)  == IF k < 10 THEN <<48 + k>> ELSE Digits(k \div 10) \o <<48 + (k % 10)>>
+IntText(k) == IF k < 0 THEN <<45>> \o Digits(0 - k) ELSE Digits(k)
+FQ == Flt(<<48, 46, 49, 50, 53>>, FALSE, 0)                          \* 0.125
+Round1(v)  == IF v.a = <<48, 46, 49, 50, 53>> THEN <<48, 46, 49>> ELSE v.a      \* str(round(x, 1)) of this universe's floats (trusted table)
+RECURSIVE PyRepr(_)
+PyStrTuple(v) == <<40>> \o JoinSeqs([i \in 1..Len(v.l) |-> PyRepr(v.l[i])], <<44, 32>>) \o (IF Len(v.l) = 1 THEN <<44, 41>> ELSE <<41>>)
+PyStr(v) == CASE v.t = "null" -> <<78, 111, 110, 101>>
+              [] v.t = "bool" -> IF v.b THEN <<84, 114, 117, 101>> ELSE <<70, 97, 108, 115, 101>>
+              [] v.t = "int"  -> IntText(v.n)
+              [] v.t = "flt"  -> v.a
+              [] v.t = "str"  -> v.a
+              [] v.t = "list" -> PyStrTuple(v)
+PyRepr(v) == IF v.t = "str" THEN <<39>> \o v.a \o <<39>> ELSE PyStr(v)
+Printed(v, prec) == IF ~prec THEN PyStr(v)
+                  ELSE CASE v.t = "bool" -> IF v.b THEN <<49>> ELSE <<48>>          \* round(True, 1) is the int 1
+                         [] v.t = "flt"  -> Round1(v)
+                         [] OTHER -> PyStr(v)
+
+CliVals == {JInt(1), JInt(2), F1, FQ, JBool(TRUE), JStr(<<228, 32, 98>>), JNull, JList(<<JInt(1), JInt(2)>>),
+            JMap(KX :> JInt(1)), JMap(KX :> JStr(<<228, 32, 98>>) @@ KY :> JInt(2))}
+CliSPs  == {MkSP(KA :> va @@ KB :> vb) : va \in CliVals \cup {Abs}, vb \in {Abs, JInt(0), JInt(1)}}
+CliCorpora == LET all == UNION {kSubset(n, CliSPs) : n \in 0..3} IN
+              SetToSeq({SetToSeq(C) : C \in RandomSubset(IF NCLI < Cardinality(all) THEN NCLI ELSE Cardinality(all), all)})
+CliFilters == {[k |-> KA, v |-> JInt(1)], [k |-> KA, v |-> JInt(2)], [k |-> KB, v |-> JInt(1)]}
+FilterIdx(js, f) == {i \in 1..Len(js) : LET x == At(js[i], <<f.k>>) IN x.ex /\ x.v.t \notin {"map", "list"} /\ PyEq(x.v, f.v)}
+NoFilter == [k |-> <<>>, v |-> JNull]
+CliSels(js) == {[kind |-> "none", I |-> 1..Len(js), f |-> NoFilter]}
+               \cup {[kind |-> "ids", I |-> I, f |-> NoFilter] : I \in SUBSET (1..Len(js)) \ {{}}}
+               \cup {[kind |-> "filter", I |-> FilterIdx(js, f), f |-> f] : f \in CliFilters}
+CliFmts == {[r |-> 5, prec |-> FALSE, depth |-> 0], [r |-> 2, prec |-> FALSE, depth |-> 0], [r |-> 5, prec |-> TRUE, depth |-> 0],
+            [r |-> 5, prec |-> FALSE, depth |-> 1], [r |-> 5, prec |-> FALSE, depth |-> 2]}
+Conflict(K) == \E k1, k2 \in K : Len(k1) < Len(k2) /\ SubSeq(k2, 1, Len(k1)) = k1
+FmtRows(S, xc, fmt) ==       \* the rows the printed schema must consist of
+  LET keys == {k \in ReqKeys(S, xc) : Scal(S, k) # {} /\ (fmt.depth = 0 \/ Len(k) <= fmt.depth)} IN
+  {[k |-> Dotted(k),
+    groups |-> SetToSeq({[t |-> tn, n |-> Cardinality({v \in Scal(S, k) : TypeName(v) = tn}), ell |-> Cardinality({v \in Scal(S, k) : TypeName(v) = tn}) > fmt.r,
+                          texts |-> SetToSeq({Printed(v, fmt.prec) : v \in {v \in Scal(S, k) : TypeName(v) = tn}})]
+                         : tn \in {TypeName(v) : v \in Scal(S, k)}})] : k \in keys}
+FmtHidden(S, xc, fmt) == IF fmt.depth = 0 THEN {} ELSE {Dotted(SubSeq(k, 1, fmt.depth)) : k \in {k \in ReqKeys(S, xc) : Len(k) > fmt.depth}}
+CliSchemaCase(js, sel, xc, fmt) ==
+  LET S == SelSet(js, sel.I) IN
+  [cmd |-> "schema", kind |-> sel.kind, sel |-> SetToSortSeq(sel.I, <), fk |-> Dotted(<<sel.f.k>>), fv |-> ToWire(sel.f.v),
+   xc |-> xc, r |-> fmt.r, prec |-> fmt.prec, depth |-> fmt.depth,
+   judged |-> ~Deviates(S, xc) /\ ~(fmt.depth > 0 /\ Conflict(ReqKeys(S, xc))),
+   rows |-> SetToSeq(FmtRows(S, xc, fmt)), hidden |-> SetToSeq(FmtHidden(S, xc, fmt))]
+CliDiffCase(js, sel) ==
+  LET sub == SubSeq2(js, sel.I) IN
+  [cmd |-> "diff", kind |-> sel.kind, sel |-> SetToSortSeq(sel.I, <), fk |-> Dotted(<<sel.f.k>>), fv |-> ToWire(sel.f.v),
+   d |-> [i \in 1..Len(sub) |-> ToWire(DiffOf(sub, i))]]
+CliRec(js) == [jobs |-> [i \in 1..Len(js) |-> ToWire(js[i])],
+               cases |-> SetToSeq({CliSchemaCase(js, sel, xc, fmt) : sel \in CliSels(js), xc \in BOOLEAN, fmt \in CliFmts})
+                         \o SetToSeq({CliDiffCase(js, sel) : sel \in CliSels(js)})]
+\* the command-level promise, checked by TLC on the cases themselves: the rows are exactly the required keys that have values
+\* (nothing of unselected jobs), every value of the selection appears in exactly one group of its key, -x hides only agreed keys
+CliFaithful == \A n \in 1..Len(CliCorpora) : LET js == CliCorpora[n] IN \A sel \in CliSels(js) : \A xc \in BOOLEAN :
+                 LET S == SelSet(js, sel.I)
+                     rows == FmtRows(S, xc, [r |-> 5, prec |-> FALSE, depth |-> 0]) IN
+                 /\ {r.k : r \in rows} = {Dotted(k) : k \in {k \in ReqKeys(S, xc) : Scal(S, k) # {}}}
+                 /\ \A r \in rows : \A i, j \in 1..Len(r.groups) : i # j => r.groups[i].t # r.groups[j].t
+                 /\ \A j \in S : \A p \in Pairs(j) : (p.v.t # "map" /\ p.k \in ReqKeys(S, xc)) =>
+                        \E r \in rows : r.k = Dotted(p.k) /\ \E i \in 1..Len(r.groups) : r.groups[i].t = TypeName(p.v) /\ PyStr(p.v) \in Range(r.groups[i].texts)
+ExportCli == /\ TLCGet("level") >= 0
+             /\ CliFaithful
+             /\ ndJsonSerialize(IOEnv.CLI_OUT, [n \in 1..Len(CliCorpora) |-> CliRec(CliCorpora[n])])
 =============================================================================
